@@ -142,8 +142,9 @@ theorem advance_spec (read : Read) (l : Lexer) (h : Inv l) :
     · rw [(sp.2.2.1 hb).1]; simp [Lexer.count, q2]
     · have := sp.2.2.2 hb hc
       exact ⟨by rw [this.1]; exact q3, this.2⟩
+  have hneof : l.eof = false := by simp [Lexer.eof, Lexer.count, h.ranges, h.idx]
   unfold Lexer.advance
-  simp only [hne, Bool.false_eq_true, if_false]
+  simp only [hne, hneof, Bool.or_self, Bool.false_eq_true, if_false]
   split
   · rename_i hfast
     split
